@@ -47,6 +47,28 @@ def chains(tier):
                 yield {"kind": "msb", "L": L, "m": m, "gap": gap}
 
 
+def mixend(tier):
+    """mixed directions with whole slots: a forward project, a backward anchor z (alap + end), its predecessor pre (no direction stated:
+    pulled backward by propagation; one slot of effort or less) and a forward-PINNED task f that holds the last slots before z's start
+    on pre's resource - pre has to walk back over them; its reported end must still lie in its last booked slot"""
+    for L in (60, 30):
+        for m in (L, L // 2, 2 * L):
+            for held in (1, 2):
+                for own in (False, True):
+                    yield {"kind": "mixend", "L": L, "m": m, "held": held, "own": own}
+
+
+def mixend_spec(it):
+    L = it["L"]
+    z = {"id": "z", "effort": 2 * L, "alloc": ["r2"], "sched": "alap", "end": "2025-01-09-15:00", "deps": ["pre"]}
+    zstart_h = 15 - (2 * L) // 60 if L == 60 else 14
+    f = {"id": "f", "effort": it["held"] * L, "alloc": ["r1"], "prio": 900, "sched": "asap",
+         "start": f"2025-01-09-{zstart_h - it['held']:02d}:00" if L == 60 else f"2025-01-09-{13 if it['held'] == 2 else 13}:{'00' if it['held'] == 2 else '30'}"}
+    pre = {"id": "pre", "effort": it["m"], "alloc": ["r1"], **({"sched": "alap"} if it["own"] else {})}
+    return {"res_min": L if L != 60 else None, "dur": "1w", "resources": [{"id": "r1"}, {"id": "r2"}],
+            "tasks": [{"id": "w", "effort": 120, "alloc": ["r1"]}, pre, f, z]}
+
+
 def mixdir(tier):
     """a forward and a backward task of one resource that meet in ONE slot (the forward one fills it from the front, the backward one
     from the back): sub-slot efforts that fit the slot together, either task placed first (open finding D69)"""
@@ -75,6 +97,8 @@ def to_spec(it):
     k = it["kind"]
     if k == "mixdir":
         return mixdir_spec(it)
+    if k == "mixend":
+        return mixend_spec(it)
     if k == "chain":
         L = it["L"]
         tasks = []
@@ -186,6 +210,7 @@ def universe(tier):
     from mc.props import c01
     yield from c01.dupids(tier)
     yield from mixdir(tier)
+    yield from mixend(tier)
 
 
 def run(ctx):
